@@ -1,7 +1,7 @@
 (* C02 — theorems.  Only statements and `exact lemma` here.  NOTES.md says in plain words what each
    one means and what is not proved. *)
 From GixV.Base Require Import Bytes Outcome.
-From GixV.C02 Require Import Model Spec ProofsTree ProofsIter ProofsTagIter ProofsWrite ProofsKnown ProofsTime ProofsSig ProofsCommitRT ProofsExtraRT ProofsExtraW.
+From GixV.C02 Require Import Model Spec ProofsTree ProofsIter ProofsTagIter ProofsWrite ProofsKnown ProofsTime ProofsSig ProofsCommitRT ProofsExtraRT ProofsExtraW ProofsTagRT.
 
 (* ---- trees ------------------------------------------------------------------------------------ *)
 
@@ -134,6 +134,15 @@ Qed.
 Definition tag_git_roundtrip_full_statement : Prop := forall g, tag_wf g = true ->
   tag_decode (git_write_tag g) = Ok (tagref_of g)
   /\ tag_write (tagref_of g) = Ok (git_write_tag g).
+
+(* PROVED part for tags: every annotated tag git writes WITHOUT a PGP block (any of the four kinds, any
+   valid name, tagger present or absent, any message not containing the armour header after a line break) *)
+Theorem tag_git_roundtrip_without_pgp_block : forall g, tag_wf g = true -> gg_pgp g = None ->
+  tag_decode (git_write_tag g) = Ok (tagref_of g)
+  /\ tag_write (tagref_of g) = Ok (git_write_tag g).
+Proof.
+  intros g H Hp. split; [exact (L_tag_plain_decodes g H Hp)|exact (L_tag_plain_writes g H Hp)].
+Qed.
 
 Example commit_git_roundtrip_instance :
   commit_wf ex_commit = true
